@@ -75,9 +75,15 @@ class FakeService:
             c.log.append(("stopService",))
         if c is None or (c.conn is None and not c.tcp):
             return defer.succeed(None)
+        # like ClientService: every call gets its own Deferred; they fire in the order of the calls once the
+        # connection is gone (`self.stopping` is the first of them)
+        d = defer.Deferred()
         if self.stopping is None or self.stopping.called:
-            self.stopping = defer.Deferred()
-        return self.stopping
+            self.stopping = d
+            self.stop_waiters = [d]
+        else:
+            self.stop_waiters.append(d)
+        return d
 
 
 class FakeWS:
@@ -342,7 +348,11 @@ class World:
             # is still stopping (a stopService() issued from there gets the same pending Deferred)
             r = self._guard(c, lambda: c.rc.ws_close(False, 1006, "connection was closed uncleanly (stopped during handshake)")) or "ok"
             c.tcp = False
-        err = self._guard(c, lambda: d.callback(None))
+        def fire():
+            for w in list(getattr(c.svc, "stop_waiters", [d])):
+                if not w.called:
+                    w.callback(None)
+        err = self._guard(c, fire)
         return err or r
 
     def fail_initial(self, ci):
@@ -367,9 +377,15 @@ class World:
         c.tcp = False
         return self._guard(c, lambda: c.rc.ws_close(False, 1006, "connection was closed uncleanly (handshake failed)")) or "ok"
 
+    def pending_turn(self, ci):
+        """something is waiting for a reactor turn: an eventual-queue call of this client, or any callLater(0)
+        on the shared clock (e.g. a deferLater)"""
+        c = self.clients[ci]
+        return bool(c.eq._calls) or (ci == 0 and any(dc.active() for dc in self.clock.getDelayedCalls()))
+
     def turn(self, ci):
         c = self.clients[ci]
-        if not c.eq._calls:
+        if not self.pending_turn(ci):
             return "noop"
         from .. import LOGGED
         n0 = len(LOGGED)
@@ -506,7 +522,7 @@ class World:
                 while c.conn is not None and c.conn.s2c and self.s2c(ci) != "noop":
                     progress = True
                     n += 1
-                if c.eq._calls:
+                if self.pending_turn(c.index):
                     self.turn(ci)
                     progress = True
                     n += 1
